@@ -1028,6 +1028,69 @@ func c08Fields(c *Check) {
 				okSeen = false
 			}
 		}
+		// polarity of the filter: a field that was NOT seen before is listed (inverting the test lists nothing at all:
+		// h= is empty, the signature covers no field and every verifier rejects it)
+		{
+			isSeenFlag := func(e ast.Expr) bool {
+				o := objOf(info, e)
+				if o == nil {
+					return false
+				}
+				isFlag := false
+				ast.Inspect(l.Body, func(y ast.Node) bool {
+					if as, ok := y.(*ast.AssignStmt); ok && len(as.Lhs) == 2 && len(as.Rhs) == 1 && objOf(info, as.Lhs[1]) == o {
+						if rx, isI := ast.Unparen(as.Rhs[0]).(*ast.IndexExpr); isI {
+							if _, isM := info.TypeOf(rx.X).Underlying().(*types.Map); isM {
+								isFlag = true
+							}
+						}
+					}
+					return true
+				})
+				return isFlag
+			}
+			notSeenWorld := r.AvoidEdges(func(cond ast.Expr, isCase bool) (int, bool) {
+				if isCase {
+					return 0, false
+				}
+				cond = ast.Unparen(cond)
+				if isSeenFlag(cond) {
+					return 0, true // `if ok {…}`: the true edge is impossible when the field was not seen
+				}
+				if u, isU := cond.(*ast.UnaryExpr); isU && u.Op == token.NOT && isSeenFlag(u.X) {
+					return 1, true
+				}
+				return 0, false
+			})
+			isListing := func(q Pt) bool {
+				as, ok := q.Node().(*ast.AssignStmt)
+				if !ok || !within(l.Body, q.Node()) {
+					return false
+				}
+				for i, lh := range as.Lhs {
+					if i < len(as.Rhs) {
+						if o, args := appendTarget(info, lh, as.Rhs[i]); o != nil {
+							for _, a := range args {
+								if isElemX(a) {
+									return true
+								}
+							}
+						}
+					}
+				}
+				return false
+			}
+			_, reach := r.F.Reach(Query{From: r.F.LoopBodyStart(l), Inclusive: true, Target: isListing, Avoid: r.F.IterEnd(l), AvoidEdge: notSeenWorld})
+			hasListing := false
+			for _, q := range r.F.Points() {
+				if q.Node() != nil && isListing(q) {
+					hasListing = true
+				}
+			}
+			if hasListing {
+				c.Hold("R3", fi.Name()+":"+kind+":listed-when-new", pos, reach, "a field of "+kind+" that was not met before is not listed (the duplicate test is inverted): h= names no field of the message – the signature protects nothing and verifiers reject it")
+			}
+		}
 		c.Hold("R3", fi.Name()+":"+kind+":duplicate-filter", pos, okSeen, "the duplicate filter tests "+strings.Join(tests, ",")+" but records "+strings.Join(stores, ",")+": a field configured twice in different case is listed twice and go-msgauth refuses to sign")
 	}
 	c.Hold("R3", fi.Name()+":both-lists", pos, seenLoop[over.field] && seenLoop[plain.field], "the list of signed fields is not built from both oversign_fields and sign_fields")
@@ -1622,6 +1685,63 @@ func c08Verifier(c *Check) {
 		}
 	}
 	c.Hold("R7", fn+":good-only-without-error", pos, okFlag, "a signature that failed verification is counted as a good signature: "+wit)
+	// … and only for the value pass: where the code compares the recorded value with ResultPass, the flag is set on the
+	// equal side only (a signature whose required fields are not signed is not a good signature)
+	{
+		isPassCmp := func(cond ast.Expr) (eq bool, ok bool) {
+			be, isB := ast.Unparen(cond).(*ast.BinaryExpr)
+			if !isB || (be.Op != token.EQL && be.Op != token.NEQ) {
+				return false, false
+			}
+			if strings.HasSuffix(exprStr(be.X), "ResultPass") || strings.HasSuffix(exprStr(be.Y), "ResultPass") {
+				return be.Op == token.EQL, true
+			}
+			return false, false
+		}
+		nCmp := 0
+		for _, b := range r.F.G.Blocks {
+			if cond, isCase := r.F.Cond(b); cond != nil && !isCase {
+				if _, ok := isPassCmp(cond); ok {
+					nCmp++
+				}
+			}
+		}
+		if nCmp > 0 {
+			notPass := r.AvoidEdges(func(cond ast.Expr, isCase bool) (int, bool) {
+				if isCase {
+					return 0, false
+				}
+				eq, ok := isPassCmp(cond)
+				if !ok {
+					return 0, false
+				}
+				if eq {
+					return 0, true // val == pass: true edge impossible in the world "value is not pass"
+				}
+				return 1, true
+			})
+			okP, witP := true, ""
+			for _, fp := range flagPts {
+				if _, f := r.F.Reach(Query{From: start, Inclusive: true, Target: func(q Pt) bool { return q == fp }, Avoid: r.F.IterEnd(l), AvoidEdge: orEdge(notPass)}); f {
+					// reachable without passing the comparison at all is judged by (a); here: reachable through the wrong side
+					if _, viaCmp := r.F.Reach(Query{From: start, Inclusive: true, Target: func(q Pt) bool { return q == fp }, Avoid: func(q Pt) bool {
+						if r.F.IterEnd(l)(q) {
+							return true
+						}
+						if e, isE := q.Node().(ast.Expr); isE {
+							if _, ok := isPassCmp(e); ok {
+								return true
+							}
+						}
+						return false
+					}}); !viaCmp {
+						okP, witP = false, "line "+itoa(r.Line(fp))
+					}
+				}
+			}
+			c.Hold("R7", fn+":good-only-for-pass", pos, okP, "the good-signature flag is set on the side of the comparison with ResultPass on which the value is NOT pass ("+witP+"): a signature that does not cover the required fields counts as good")
+		}
+	}
 	// (b) the result value recorded in that world is never `pass`
 	okVal := true
 	wv := ""
